@@ -226,23 +226,6 @@ def chunk_model_line(case):
     return ' '.join([cmd, f.hex() or '-', hx(start), hx(req), hx(full), str(en), hx(case['thr'])] + case['ops'])
 
 
-def chunk_impl(case, tmpdir):
-    body, raw, sub, _ = build_body(case, tmpdir)
-    res = [apply_op(body, t) for t in case['ops']]
-    try:
-        body.close()      # not part of the script: release the file
-    except Exception:
-        pass
-    if raw is None:
-        rawtxt = '*'
-        vals = sub.vals
-    else:
-        # the extra close above may have flushed again: only what the script produced counts
-        rawtxt = ','.join(raw)
-        vals = sub.vals
-    return res, rawtxt, vals
-
-
 def run_chunk_case(case, tmpdir):
     """Impl output in the driver's format.  The values are snapshotted before
     the clean-up close."""
@@ -251,8 +234,8 @@ def run_chunk_case(case, tmpdir):
     rawtxt = '*' if raw is None else ','.join(raw)
     vals = list(sub.vals)
     try:
-        body._fileobj.close() if False else None
-    finally:
+        body.close()      # not part of the script: release the file
+    except Exception:
         pass
     return ','.join(res) + ' | ' + rawtxt + ' | ' + ','.join(hx(v) for v in vals), res, vals
 
@@ -384,7 +367,7 @@ def file_is_opened_before_close(ops):
 
 
 def chunk_cases(ctx):
-    n_req, n_rand, n_mal = (1500, 1500, 800) if ctx.thorough() else (300, 300, 160)
+    n_req, n_rand, n_mal = (4000, 4000, 2000) if ctx.thorough() else (900, 900, 450)
     cases = []
     # corpus first
     cdir = os.path.join(common.VERIF, 'corpus', 'chunk')
@@ -584,7 +567,7 @@ def get_model_line(c):
             return 'q' + ('1' if f[1] in RETRYABLE else '0')
         return 'a' + hx(f[1]) + ':' + ('1' if f[2] in RETRYABLE else '0')
     faults = ','.join(ftok(f) for f in c['faults']) or '-'
-    reads = '/'.join(','.join(hx(s) for s in a) for a in c['reads']) if c['reads'] else '-'
+    reads = '/'.join((','.join(hx(s) for s in a) or '_') for a in c['reads']) if c['reads'] else '-'
     return ' '.join(['get', c['obj'] or '-', hx(c['start']), hx(c['len']), hx(c['io']), hx(c['max']),
                      faults, reads, '-' if c['done_at'] is None else hx(c['done_at'])])
 
@@ -649,7 +632,7 @@ def gen_get_case(rng, malformed):
 
 
 def check_retry(ctx):
-    n1, n2 = (4000, 1500) if ctx.thorough() else (900, 300)
+    n1, n2 = (12000, 4000) if ctx.thorough() else (2600, 900)
     cases = []
     cdir = os.path.join(common.VERIF, 'corpus', 'retry')
     for fn in sorted(os.listdir(cdir)) if os.path.isdir(cdir) else []:
@@ -793,7 +776,7 @@ def e2e_cases(ctx):
     for kind in ('upload-path', 'upload-seekable', 'upload-seekable-offset', 'upload-nonseekable',
                  'download-path', 'download-seekable', 'download-nonseekable', 'copy'):
         for size in sizes:
-            reps = 3 if ctx.thorough() else 1
+            reps = 16 if ctx.thorough() else 4
             for _ in range(reps):
                 chunk = rng.choice([1, 2, 3, 5])
                 thr = rng.choice([1, chunk, chunk + 1, 7, 50])
@@ -917,9 +900,12 @@ def check_e2e(ctx, tmpdir):
         multipart = any(o in ('UploadPart', 'UploadPartCopy') for o in r['requests']) or \
             sum(1 for o in r['requests'] if o == 'GetObject') > 1
         ctx.count('e2e', 1, nontrivial_key=json.dumps(c, sort_keys=True), kind=c['kind'],
-                  mode='multipart' if multipart else 'single', ok=r['ok'])
-        ctx.sample({'component': 'e2e', 'case': c, 'requests': r['requests'][:12],
-                    'bytes_transferred': r['vals'][:24]})
+                  mode='multipart' if multipart else 'single', ok=r['ok'],
+                  rewinds=any(v < 0 for v in r['vals']),
+                  resent=any('S:0:0 D' in ' '.join(b.ops) for b in r['bodies']))
+        if any(v < 0 for v in r['vals']) and multipart:
+            ctx.sample({'component': 'e2e', 'case': c, 'requests': r['requests'][:12],
+                        'bytes_transferred': r['vals'][:24]})
         v = exact_violation(r['vals'], r['size']) if r['ok'] else prefix_violation(r['vals'], r['size'])
         if v:
             ctx.report(sig('e2e', c), f'{c["kind"]} of {c["size"]} bytes (chunk {c["chunk"]}, threshold {c["mpthr"]}): {v}',
